@@ -122,4 +122,227 @@ def Coupler.afterHistory (c : Coupler) : List (List (List (Item α))) → Couple
   | [] => c
   | Xs :: rest => Coupler.afterHistory (c.flattenX Xs).2 rest
 
+/-! ### nested couplers: a Coupler is a GenericModel, so it can be one of the models of another Coupler
+
+`Coupler.flattenX` calls `m.flattenX(xsub)` of every sub-model (GenericModel.py 381-384) — for a
+sub-model that is itself a Coupler this is again `Coupler.flattenX`, which records ITS sizes in ITS
+`_sizeRef` attribute — and only then records its own sizes (385).  `Coupler.unflattenX` slices with
+its own `_sizeRef` and hands every slice to `m.unflattenX` (397-400).  `_sizeRef` is an attribute of
+the INSTANCE: where the sizes live is part of the behaviour (two Coupler objects never see each
+other's sizes, the same object used twice does).  The model therefore gives every Coupler node an
+object identity `id` and keeps the attributes in a heap `id ↦ sizes`.  Distinct objects = distinct
+ids (hypothesis `CTree.ids T` has no duplicates); a size list shared by all instances (a mutable
+class attribute filled in place) is the same model with all ids equal (`CTree.share`). -/
+
+/-- a coupling topology together with its state: a leaf model with its nested state, or a Coupler
+object `id` over sub-models that may again be Couplers -/
+inductive CTree (α : Type) where
+  | leaf (X : List (Item α))
+  | node (id : Nat) (cs : List (CTree α))
+  deriving Repr
+
+mutual
+/-- decidable equality of trees (the deriving handler does not cover nested inductives) -/
+def CTree.decEq [DecidableEq α] : (a b : CTree α) → Decidable (a = b)
+  | .leaf X, .leaf Y => if h : X = Y then isTrue (by rw [h]) else isFalse (by intro e; cases e; exact h rfl)
+  | .leaf _, .node _ _ => isFalse (by intro e; cases e)
+  | .node _ _, .leaf _ => isFalse (by intro e; cases e)
+  | .node i cs, .node j ds =>
+    if h : i = j then
+      match decEqL cs ds with
+      | isTrue h2 => isTrue (by rw [h, h2])
+      | isFalse h2 => isFalse (by intro e; cases e; exact h2 rfl)
+    else isFalse (by intro e; cases e; exact h rfl)
+def decEqL [DecidableEq α] : (a b : List (CTree α)) → Decidable (a = b)
+  | [], [] => isTrue rfl
+  | [], _ :: _ => isFalse (by intro e; cases e)
+  | _ :: _, [] => isFalse (by intro e; cases e)
+  | c :: cs, d :: ds =>
+    match CTree.decEq c d, decEqL cs ds with
+    | isTrue h1, isTrue h2 => isTrue (by rw [h1, h2])
+    | isFalse h1, _ => isFalse (by intro e; cases e; exact h1 rfl)
+    | _, isFalse h2 => isFalse (by intro e; cases e; exact h2 rfl)
+end
+instance [DecidableEq α] : DecidableEq (CTree α) := CTree.decEq
+
+/-- the `_sizeRef` attributes of the Coupler objects (`none`: attribute not set yet) -/
+abbrev Heap := Nat → Option (List Nat)
+
+def Heap.empty : Heap := fun _ => none
+
+def Heap.set (h : Heap) (k : Nat) (v : List Nat) : Heap := fun j => if j = k then some v else h j
+
+mutual
+/-- the flat vector of a tree: leaves left to right -/
+def flatT : CTree α → List α
+  | .leaf X => flatten X
+  | .node _ cs => flatTs cs
+def flatTs : List (CTree α) → List α
+  | [] => []
+  | c :: cs => flatT c ++ flatTs cs
+end
+
+mutual
+/-- object identities of the Couplers in a tree (pre-order) -/
+def CTree.ids : CTree α → List Nat
+  | .leaf _ => []
+  | .node id cs => id :: idsL cs
+def idsL : List (CTree α) → List Nat
+  | [] => []
+  | c :: cs => c.ids ++ idsL cs
+end
+
+mutual
+/-- every array of every leaf holds prod(shape) elements -/
+def CTree.wf : CTree α → Prop
+  | .leaf X => ∀ it ∈ X, it.wf
+  | .node _ cs => wfL cs
+def wfL : List (CTree α) → Prop
+  | [] => True
+  | c :: cs => c.wf ∧ wfL cs
+end
+
+mutual
+/-- structure and shapes of the leaf states, left to right (what the leaf callbacks can observe) -/
+def CTree.leafShapes : CTree α → List (List (Option (List Nat)))
+  | .leaf X => [shapes X]
+  | .node _ cs => leafShapesL cs
+def leafShapesL : List (CTree α) → List (List (Option (List Nat)))
+  | [] => []
+  | c :: cs => c.leafShapes ++ leafShapesL cs
+end
+
+mutual
+/-- the coupling topology alone: Coupler identities and number of sub-models, states forgotten -/
+def CTree.topo : CTree α → CTree Unit
+  | .leaf _ => .leaf []
+  | .node id cs => .node id (topoL cs)
+def topoL : List (CTree α) → List (CTree Unit)
+  | [] => []
+  | c :: cs => c.topo :: topoL cs
+end
+
+mutual
+/-- `flattenX` of the model at the root of the tree: the flat vector and the heap afterwards.
+A Coupler flattens its sub-models first (each Coupler among them records its sizes), THEN records
+its own sizes (GenericModel.py 381-385) -/
+def flattenT (h : Heap) : CTree α → List α × Heap
+  | .leaf X => (flatten X, h)
+  | .node id cs =>
+    let r := flattenTs h cs
+    (r.1.flatten, r.2.set id (r.1.map List.length))
+/-- the loop 381-384: the flat vectors of the sub-models, heap threaded left to right -/
+def flattenTs (h : Heap) : List (CTree α) → List (List α) × Heap
+  | [] => ([], h)
+  | c :: cs =>
+    let r := flattenT h c
+    let rs := flattenTs r.2 cs
+    (r.1 :: rs.1, rs.2)
+end
+
+mutual
+/-- `unflattenX` of the model at the root of the tree, the reference state being the tree's own
+state.  A Coupler reads ITS `_sizeRef` (AttributeError if it never flattened) and zips it with its
+sub-models (397): `X_flat[ind:ind+s]` goes to `m.unflattenX` -/
+def unflattenT (h : Heap) (flat : List α) : CTree α → Option (CTree α)
+  | .leaf X => (unflatten flat X).map CTree.leaf
+  | .node id cs =>
+    match h id with
+    | none => none
+    | some ss => (unflattenTs h flat ss cs).map (CTree.node id)
+/-- the zip loop 397-400 (zip stops at the shorter of sizes / sub-models) -/
+def unflattenTs (h : Heap) (flat : List α) (ss : List Nat) : List (CTree α) → Option (List (CTree α))
+  | [] => some []
+  | c :: cs =>
+    match ss with
+    | [] => some []
+    | s :: ss' =>
+      match unflattenT h (flat.take s) c with
+      | none => none
+      | some x => (unflattenTs h (flat.drop s) ss' cs).map (fun t => x :: t)
+end
+
+/-- several model trees alive at the same time, `flattenX` called on one after the other -/
+def flattenAll (h : Heap) : List (CTree α) → Heap
+  | [] => h
+  | T :: Ts => flattenAll (flattenT h T).2 Ts
+
+mutual
+/-- the variant in which all Coupler instances share ONE size list (a mutable class attribute
+filled in place): every node has the same identity -/
+def CTree.share : CTree α → CTree α
+  | .leaf X => .leaf X
+  | .node _ cs => .node 0 (shareL cs)
+def shareL : List (CTree α) → List (CTree α)
+  | [] => []
+  | c :: cs => c.share :: shareL cs
+end
+
+/-- operations on a forest of live model trees, in any interleaving: `flat i` = `flattenX` of tree i
+(the vector is kept), `unflat i` = `unflattenX` of the vector kept for tree i by tree i's state,
+`unflatWith i v` = `unflattenX` of another vector (what an iterator returns) -/
+inductive Op (α : Type) where
+  | flat (i : Nat)
+  | unflat (i : Nat)
+  | unflatWith (i : Nat) (v : List α)
+
+/-- interpreter state: the heap of `_sizeRef` attributes and the flat vector kept per tree -/
+structure World (α : Type) where
+  heap : Heap
+  kept : Nat → Option (List α)
+
+/-- result of one operation (for the driver / the correspondence) -/
+inductive Out (α : Type) where
+  | flat (v : List α) (sizes : List (Option (List Nat)))   -- vector, `_sizeRef` of every Coupler of the tree (pre-order)
+  | unflat (r : Option (CTree α))
+  | bad                                                    -- no such tree / nothing kept
+
+def runOp (forest : List (CTree α)) (w : World α) : Op α → World α × Out α
+  | .flat i =>
+    match forest[i]? with
+    | none => (w, .bad)
+    | some T =>
+      let r := flattenT w.heap T
+      ({ heap := r.2, kept := fun j => if j = i then some r.1 else w.kept j }, .flat r.1 (T.ids.map r.2))
+  | .unflat i =>
+    match forest[i]?, w.kept i with
+    | some T, some v => (w, .unflat (unflattenT w.heap v T))
+    | _, _ => (w, .bad)
+  | .unflatWith i v =>
+    match forest[i]? with
+    | some T => (w, .unflat (unflattenT w.heap v T))
+    | none => (w, .bad)
+
+def runOps (forest : List (CTree α)) (w : World α) : List (Op α) → List (Out α)
+  | [] => []
+  | o :: os => (runOp forest w o).2 :: runOps forest (runOp forest w o).1 os
+
+def World.new : World α := { heap := Heap.empty, kept := fun _ => none }
+
+/-! ### who owns the flat vector
+
+`DESolver._getdXdt` returns `self._flattenX(dXdt)` to the iterator, which keeps it as a stage
+derivative.  `np.hstack` (GenericModel.flattenX, 249) and `np.concatenate` (Coupler.flattenX, 386)
+build a NEW array for every input, also for a state list that holds a single 1-D array; the
+identity default of a bare DESolver (`flattenXNotImplemented`) and a `np.reshape` of a contiguous
+array (DiffusionModel.flattenX) hand back memory of their argument. -/
+
+inductive Ownership where
+  | fresh      -- a new array: later writes into the argument do not show
+  | shared     -- the argument itself or a view of it
+  deriving Repr, DecidableEq
+
+/-- GenericModel.flattenX: `np.hstack(X)` -/
+def flattenOwnership (_X : List (Item α)) : Ownership := .fresh
+
+/-- Coupler.flattenX: `np.concatenate` of the sub-models' flat vectors -/
+def flattenCOwnership (_Xs : List (List (Item α))) : Ownership := .fresh
+
+/-- `DESolver.flattenXNotImplemented` (returns X) -/
+def identityOwnership : Ownership := .shared
+
+def Ownership.isShared : Ownership → Bool
+  | .fresh => false
+  | .shared => true
+
 end KawinV.Flatten
